@@ -5,15 +5,15 @@ from rules import agent as A
 LEVEL = "proof"
 
 MAP_ALLOW = {
-    r"StunAgent::send$": {("ref", r"HashMap::<.*>::contains_key::<"), ("refmut", r"HashMap::<.*>::insert$")},
-    r"StunAgent::handle_stun$": {("refmut", r"HashMap::<.*>::insert$")},
-    r"StunAgent::take_outstanding_request$": {("refmut", r"HashMap::<.*>::remove::<")},
-    r"StunAgent::request_transaction$": {("ref", r"HashMap::<.*>::contains_key::<")},
-    r"StunAgent::mut_request_transaction$": {("ref", r"HashMap::<.*>::contains_key::<")},
-    r"StunAgent::mut_request_state$": {("refmut", r"HashMap::<.*>::get_mut::<")},
-    r"StunAgent::request_state$": {("ref", r"HashMap::<.*>::get::<")},
-    r"StunAgent::poll$": {("refmut", r"HashMap::<.*>::(values_mut|iter_mut|get_mut::<.*|remove::<.*)$"),
-                          ("ref", r"HashMap::<.*>::(keys|len|is_empty|get::<.*|contains_key::<.*|iter|values)$")},
+    r"StunAgent::send$": {("ref", r"(Hash|BTree)Map::<.*>::contains_key::<"), ("refmut", r"(Hash|BTree)Map::<.*>::insert$")},
+    r"StunAgent::handle_stun$": {("refmut", r"(Hash|BTree)Map::<.*>::insert$")},
+    r"StunAgent::take_outstanding_request$": {("refmut", r"(Hash|BTree)Map::<.*>::remove::<")},
+    r"StunAgent::request_transaction$": {("ref", r"(Hash|BTree)Map::<.*>::contains_key::<")},
+    r"StunAgent::mut_request_transaction$": {("ref", r"(Hash|BTree)Map::<.*>::contains_key::<")},
+    r"StunAgent::mut_request_state$": {("refmut", r"(Hash|BTree)Map::<.*>::get_mut::<")},
+    r"StunAgent::request_state$": {("ref", r"(Hash|BTree)Map::<.*>::get::<")},
+    r"StunAgent::poll$": {("refmut", r"(Hash|BTree)Map::<.*>::(values_mut|iter_mut|get_mut::<.*|remove::<.*)$"),
+                          ("ref", r"(Hash|BTree)Map::<.*>::(keys|len|is_empty|get::<.*|contains_key::<.*|iter|values)$")},
     r"<stun_proto::agent::StunAgent as std::fmt::Debug>::fmt$": {("ref", r"^(core|std)::fmt::")},
 }
 CANCEL_ALLOW = {
